@@ -95,6 +95,16 @@ func (e *Engine) verifyFunc(name string) (*VC, error) {
 		vc.assume(g)
 		reqs = append(reqs, g)
 	}
+	for _, c := range con.Assumes {
+		g, err := env.evalBool(c.E)
+		if err != nil {
+			vc.oblige(st, "spec-error", "assume/"+c.Name, "false", c.Pos, err.Error())
+			continue
+		}
+		vc.assume(g)
+		reqs = append(reqs, g)
+		vc.assumed["local-assumption:"+name+"/"+c.Name+": "+c.Src] = true
+	}
 	// vacuity guard: the preconditions must be satisfiable
 	if len(reqs) > 0 {
 		o := vc.oblige(st, "cover", "requires-sat", "false", con.Pos, "preconditions are satisfiable")
